@@ -16,7 +16,7 @@ def reexec():
         env = dict(os.environ)
         env["VERIF_REEXEC"] = "1"
         env["PYTHONHASHSEED"] = env.get("VERIF_HASHSEED", "0")
-        env["PYTHONPATH"] = "/repo"
+        env["PYTHONPATH"] = os.environ.get("VERIF_REPO", "/repo")
         env["PYTHONDONTWRITEBYTECODE"] = "1"
         env["VYPER_VERIF"] = "1"
         py = VENV_PY if os.path.exists(VENV_PY) else sys.executable
